@@ -294,7 +294,7 @@ def main(tier, replay=None):
                          'script': {'1': [{'k': 'emit', 'n': name, 'cb': 0, 'x': [2]}]}, 'max_depth': 80, 'target': target, 'cbkind': 'closure'})
     validate(run, deep, 'deep')
     n = 1500 if quick else 24000
-    RCH = 6000       # long random behaviours branch in the trace specification: smaller batches keep TLC's memory flat
+    RCH = 1500       # long random behaviours branch in the trace specification: batches of the quick tier's size keep TLC fast (6000 at once took over 20 minutes)
     for target in ('Emitter', 'Parser'):
         rc = [random_case(rng, target) for _ in range(n if target == 'Emitter' else n // 3)]
         for i in range(0, len(rc), RCH):
